@@ -537,6 +537,69 @@ def spend_forms(ctx):
 
 
 # --------------------------------------------------------------------------------------------- d. Core's vectors, both arms
+# --------------------------------------------------------------------------------------------- time locks: the lattice
+def _num(n):
+    """Minimal CScriptNum encoding."""
+    if n == 0:
+        return b""
+    neg, a = n < 0, abs(n)
+    out = bytearray()
+    while a:
+        out.append(a & 0xFF)
+        a >>= 8
+    if out[-1] & 0x80:
+        out.append(0x80 if neg else 0)
+    elif neg:
+        out[-1] |= 0x80
+    return bytes(out)
+
+
+SEQ_EDGES = [0, 1, 2, 3, 5, 0xFFFF, 0x10000, 0x10003, 0x1FFFF, 0xF0003, 0xFFFFF, 0x3FFFFF, 0x400000, 0x400001, 0x400003, 0x40FFFF, 0x410003, 0x4FFFFF, 0x7FFFFFFF,
+             0x80000000, 0x80000001, 0x80400003, 0xFFFFFFFE, 0xFFFFFFFF]
+LOCK_EDGES = [0, 1, 100, 499_999_999, 500_000_000, 500_000_001, 0x7FFFFFFF, 0x80000000, 0xFFFFFFFF]
+
+
+def _timelock_shard(arg):
+    cases = arg
+    st = Stats()
+    for op, operand, version, lock, seq, form in cases:
+        script = pushf(_num(operand)) + bytes([op, 0x75, 0x51])   # <n> CLTV|CSV DROP 1
+        txd = {"version": version, "locktime": lock, "ins": [(b"\x55" * 32, 0, b"", seq)], "outs": [(1, b"\x51")]}
+        case = {"op": "CLTV" if op == 0xB1 else "CSV", "operand": operand, "version": version, "lock": lock, "seq": hex(seq), "form": form, "script": script.hex()}
+        if form == "bare":
+            prevs, wit = [(1000, script)], None
+        elif form == "p2wsh":
+            prevs, wit = [(1000, b"\x00\x20" + hashlib.sha256(script).digest())], [[script]]
+        else:
+            lh = T.leaf_hash(0xC0, script)
+            nums = bytes.fromhex("50929b74c1a04954b78b4b6035e97a5e078a5a0f28ec96d547bfee9ace803ac0")
+            qx, par = T.tweak_pubkey(int.from_bytes(nums, "big"), lh)
+            prevs, wit = [(1000, b"\x51\x20" + qx.to_bytes(32, "big"))], [[script, bytes([0xC0 | par]) + nums]]
+        for flags in (STD, CONSENSUS, [f for f in CONSENSUS if f not in ("CHECKLOCKTIMEVERIFY", "CHECKSEQUENCEVERIFY")]):
+            judge_spend(st, "C08/timelock/" + case["op"], txd, 0, prevs, wit, flags, case)
+    return st
+
+
+def timelocks(ctx):
+    cases = []
+    operands_seq = SEQ_EDGES + [-1, 1 << 32, (1 << 39) - 1, 1 << 39]
+    for form in ("bare", "p2wsh", "tapscript"):
+        for version in (1, 2):
+            for operand in operands_seq:
+                for seq in SEQ_EDGES:
+                    if form != "bare" and ctx.quick and (SEQ_EDGES.index(seq) + operands_seq.index(operand)) % 2:
+                        continue
+                    cases.append((0xB2, operand, version, 0, seq, form))
+        operands_lock = LOCK_EDGES + [-1, 1 << 32, (1 << 39) - 1, 1 << 39]
+        for operand in operands_lock:
+            for lock in LOCK_EDGES:
+                for seq in (0, 0xFFFFFFFE, 0xFFFFFFFF):
+                    cases.append((0xB1, operand, 2, lock, seq, form))
+    st = ctx.pmap(_timelock_shard, shard_round_robin(cases, 64))
+    st.notes["cases"] = len(cases)
+    return st
+
+
 def _core_shard(arg):
     idxs = arg
     from btclib.exceptions import BTClibValueError
@@ -625,5 +688,6 @@ SUBS = [
     ("sigfree", sigfree),
     ("sigops", sigops),
     ("spend_forms", spend_forms),
+    ("timelocks", timelocks),
     ("limits", limits),
 ]
